@@ -89,9 +89,13 @@ impl<'a> Printer<'a> {
             T::Interval(n) => {
                 let mut digits = n.to_string();
                 if self.sugar() {
-                    let pad = 1 + (self.tape.next() as usize) % 6;
-                    digits = format!("{}{}", "0".repeat(pad), digits);
-                    self.used.push("interval-padded");
+                    // 0..=6 leading zeros (0 = the plain numeral: its own length classes must
+                    // not disappear behind the padding)
+                    let pad = (self.tape.next() as usize) % 7;
+                    if pad > 0 {
+                        digits = format!("{}{}", "0".repeat(pad), digits);
+                        self.used.push("interval-padded");
+                    }
                 }
                 self.push(&format!("{}{}", f.atom.prefix_interval, digits), TK::Atom)
             }
